@@ -568,6 +568,28 @@ func (j *c19Judge) run(r *core.R, what string) {
 					good++
 				}
 			}
+			// ... and as many as the largest saved file the index itself declares
+			// (when the index is a canonical PAR 1.0 file by the strict reader,
+			// so that both readers look at the same entries)
+			if ib, err := os.ReadFile(j.idx); err == nil {
+				if iv, problems := par1rw.Parse(ib); iv != nil && len(problems) == 0 {
+					maxDecl := uint64(0)
+					for _, e := range iv.Entries {
+						if e.Saved() && e.Size > maxDecl {
+							maxDecl = e.Size
+						}
+					}
+					fit := 0
+					for v := 1; v <= 99; v++ {
+						if fi, err := os.Stat(fmt.Sprintf("%s.p%02d", base, v)); err == nil && uint64(fi.Size()) >= 96+maxDecl && maxDecl < 1<<62 {
+							fit++
+						}
+					}
+					if vr.FileCounts.UsableParityFileCount > fit {
+						r.Violate("usable-volumes-exceed-declared-size", "%s: Verify counts %d usable parity volumes; only %d volume files are large enough to hold parity data for the largest saved file the index declares (%d bytes)", what, vr.FileCounts.UsableParityFileCount, fit, maxDecl)
+					}
+				}
+			}
 			if vr.FileCounts.UsableParityFileCount > good {
 				r.Violate("usable-volumes-exceed-intact", "%s: Verify counts %d usable parity volumes; only %d volume files are large enough to hold parity data for the longest data file present (%d bytes)", what, vr.FileCounts.UsableParityFileCount, good, longest)
 			}
